@@ -1430,6 +1430,11 @@ func (b *Builder) Finish(tsMode int, jitter int64) (types.Block, consensus.V1Blo
 	blk := types.Block{Timestamp: NextTimestamp(b.CS, tsMode, jitter), Transactions: b.V1}
 	if b.v2Allowed() && (len(b.V2) > 0 || !b.v1Allowed() || rapid.IntRange(0, 2).Draw(b.T, "emptyV2Data") != 0) {
 		blk.V2 = &types.V2BlockData{Transactions: b.V2}
+	} else if !b.v2Allowed() && rapid.IntRange(0, 3).Draw(b.T, "earlyV2Format") == 0 {
+		// the v2 block format (height and commitment in the header) is accepted at every height; only v2 transactions
+		// have to wait for the allow height
+		blk.V2 = &types.V2BlockData{}
+		b.label("v2-format-block-before-allow-height")
 	}
 	miner := b.drawLock("miner", b.v1Allowed()).Address()
 	if err := Seal(b.CS, &blk, miner); err != nil {
